@@ -108,7 +108,13 @@ func (f *fixture) codeFlow(r opfix.Router, q request, k clientKind, issuer strin
 	for key, v := range extraToken {
 		tf[key] = v
 	}
-	var basic []string
+	basic := clientAuth(k, issuer, tf)
+	return f.do(r, q, http.MethodPost, f.probePath(r, iToken), tf, basic)
+}
+
+// clientAuth adds the credentials of a client of kind k to a form the way the client is registered and
+// returns the Basic-auth pair (nil unless client_secret_basic). issuer = audience of a private_key_jwt assertion.
+func clientAuth(k clientKind, issuer string, tf url.Values) (basic []string) {
 	switch k.auth {
 	case "basic":
 		basic = []string{k.id, k.secret}
@@ -123,7 +129,7 @@ func (f *fixture) codeFlow(r opfix.Router, q request, k clientKind, issuer strin
 	default:
 		tf.Set("client_id", k.id)
 	}
-	return f.do(r, q, http.MethodPost, f.probePath(r, iToken), tf, basic)
+	return basic
 }
 
 // tokenIssuer: the iss claim of an ID token issued through the code flow.
